@@ -79,7 +79,9 @@ pub const ARG_VALUES: &[&str] = &[
     "\"[a=b]\"", "\"*|a\"", "\"a + b ~ c\"", "\"::before\"", "\"\"", "\"(\"", "\",\"", "\"a,\"", "\" \"",
     "null", "true", "false", "()", "(1,)", "[1]", "[]", "(1 2 3)", "(1, 2, 3)", "[1 2]",
     "(a: 1)", "(a: 1, b: 2)", "(a: (b: (c: 1)))", "((a b): 1)", "(1 2, 3 4)", "(1/2)",
-    "list.slash(1, 2)", "calc(1px + 1%)", "calc(1 + 2)", "min(1px, 1%)", "clamp(1px, 1%, 2px)",
+    "list.slash(1, 2)", "list.slash(1, 2, 3)", "append((), 1, $separator: slash)", "append((), 1 2 3, $separator: slash)",
+    "join((), (), $separator: slash)", "join((), (), $separator: comma)", "append((), 1, $separator: comma)", "append([], 1)",
+    "join(1, (), $bracketed: true)", "(1 2 3)", "(1 2 3, 4 5)", "(a b c / 0.5)", "1 2 3 / 0.5", "calc(1px + 1%)", "calc(1 + 2)", "min(1px, 1%)", "clamp(1px, 1%, 2px)",
     "calc(var(--x))", "var(--x)", "get-function(\"red\")", "get-function(\"calc\")",
     "$l...", "$m...", "$l", "$m", "$s", "$n", "$k: 1", "$list: 1 2", "$map: (a: 1)",
     "$string: \"x\"", "$color: red", "$number: 1", "$weight: 50%", "$amount: 10%",
